@@ -143,6 +143,7 @@ pub fn generate_c09(seed: u64, tier: &str, sink: &mut Sink) {
             body: BodyR::Empty,
             post: vec![],
             hops: hops.iter().map(|(st, loc)| (vec![Seg::Data(response(*st, loc.as_deref()))], loc.clone())).collect(),
+            plain_tunnel: false,
         };
         let obs = run_send(&case);
         let start_norm = norm(&start).unwrap();
@@ -204,12 +205,12 @@ pub fn generate_c09(seed: u64, tier: &str, sink: &mut Sink) {
 
 pub fn generate_c10(seed: u64, tier: &str, sink: &mut Sink) {
     let n = if tier == "thorough" { 20_000 } else { 1500 };
-    generate_chains(seed ^ 0xC10, n, false, sink)
+    generate_chains(seed ^ 0xC10, n, false, false, sink)
 }
 
 /// redirect chains that change host / port / scheme / proxy applicability; `proxy_focus`: always a
 /// proxy configuration and simple bodies (used by C11: the proxy decision as it is *used* by send)
-pub fn generate_chains(seed: u64, n: usize, proxy_focus: bool, sink: &mut Sink) {
+pub fn generate_chains(seed: u64, n: usize, proxy_focus: bool, tunnel_focus: bool, sink: &mut Sink) {
     let mut rng = Rng::new(seed);
     for _ in 0..n {
         let body = if proxy_focus { BodyR::Text("p".into()) } else { gen_body(&mut rng) };
@@ -236,9 +237,15 @@ pub fn generate_chains(seed: u64, n: usize, proxy_focus: bool, sink: &mut Sink) 
         let use_proxy = proxy_focus || rng.chance(1, 3);
         // sometimes https targets are proxied too: the hop that reaches one must open a CONNECT tunnel
         // for THAT hop's origin (the scripted proxy answers 200, TLS then fails: the chain ends there)
-        let https_proxy = use_proxy && rng.chance(1, 5);
-        let tunnel_at: Option<usize> = if https_proxy { urls.iter().position(|u| u.starts_with("https://")) } else { None };
+        let https_proxy = use_proxy && (tunnel_focus || rng.chance(1, 3));
+        // half of those run with the TLS layer of the tunnels left out (hook): every https hop is then
+        // tunnelled and followed, and the request written INSIDE each tunnel is judged like any other
+        let plain = https_proxy && rng.chance(if tunnel_focus { 3 } else { 1 }, if tunnel_focus { 4 } else { 2 });
+        let proxy_url = if use_proxy && rng.chance(1, 2) { "http://pu:pw@proxy.test:3128" } else { "http://proxy.test:3128" };
+        let tunnel_at: Option<usize> = if https_proxy && !plain { urls.iter().position(|u| u.starts_with("https://")) } else { None };
         let expect_hops = tunnel_at.map_or(nhops, |i| i + 1);
+        let tunnelled = |i: usize| -> bool { https_proxy && urls[i].starts_with("https://") && (plain || tunnel_at == Some(i)) };
+        const AGREED: &[u8] = b"HTTP/1.1 200 Connection established\r\n\r\n";
         let case = SendCase {
             method: rng.pick(&["POST", "PUT", "GET", "DELETE"]).to_string(),
             url: start,
@@ -246,12 +253,32 @@ pub fn generate_chains(seed: u64, n: usize, proxy_focus: bool, sink: &mut Sink) 
             max_redirections: 5,
             max_headers: 100,
             compress: rng.chance(1, 2),
-            proxy: ProxyCfg { http: if use_proxy { Some("http://proxy.test:3128".into()) } else { None }, https: if https_proxy { Some("http://proxy.test:3128".into()) } else { None }, no_proxy: if use_proxy { vec!["noproxy.test".into()] } else { vec![] } },
+            proxy: ProxyCfg { http: if use_proxy { Some(proxy_url.into()) } else { None }, https: if https_proxy { Some(proxy_url.into()) } else { None }, no_proxy: if use_proxy { vec!["noproxy.test".into()] } else { vec![] } },
             params: vec![],
             pre: gen_steps(&mut rng, 3, false),
             body,
             post: gen_steps(&mut rng, 1, false),
-            hops: hops.iter().enumerate().map(|(i, (st, loc))| if tunnel_at == Some(i) { (vec![Seg::Data(b"HTTP/1.1 200 Connection established\r\n\r\n".to_vec())], None) } else { (vec![Seg::Data(response(*st, loc.as_deref()))], loc.clone()) }).collect(),
+            hops: hops
+                .iter()
+                .enumerate()
+                .map(|(i, (st, loc))| {
+                    if tunnel_at == Some(i) {
+                        (vec![Seg::Data(AGREED.to_vec())], None)
+                    } else if plain && tunnelled(i) {
+                        // the proxy's agreement and the origin's answer: in one piece or in two
+                        if i % 2 == 0 {
+                            let mut w = AGREED.to_vec();
+                            w.extend_from_slice(&response(*st, loc.as_deref()));
+                            (vec![Seg::Data(w)], loc.clone())
+                        } else {
+                            (vec![Seg::Data(AGREED.to_vec()), Seg::Data(response(*st, loc.as_deref()))], loc.clone())
+                        }
+                    } else {
+                        (vec![Seg::Data(response(*st, loc.as_deref()))], loc.clone())
+                    }
+                })
+                .collect(),
+            plain_tunnel: plain,
         };
         let obs = run_send(&case);
         let tag = body_tag(&case.body);
@@ -269,7 +296,7 @@ pub fn generate_chains(seed: u64, n: usize, proxy_focus: bool, sink: &mut Sink) 
                 // proxy choice re-evaluated for this hop's URL; connection target belongs to it
                 let (eh, ep) = if via_proxy { ("proxy.test".to_string(), 3128) } else { (u.host_str().unwrap().trim_matches(|c| c == '[' || c == ']').to_string(), u.port_or_known_default().unwrap()) };
                 let dh = h.dial.host.trim_matches(|c| c == '[' || c == ']').to_string();
-                if tunnel_at != Some(i) && (dh != eh || h.dial.port != ep) {
+                if !tunnelled(i) && (dh != eh || h.dial.port != ep) {
                     return Err((format!("hop-peer-{}", tag), format!("hop {} ({}) dialled {}:{}, expected {}:{}", i, urls[i], h.dial.host, h.dial.port, eh, ep)));
                 }
                 let (host_header, target) = if via_proxy {
@@ -277,7 +304,7 @@ pub fn generate_chains(seed: u64, n: usize, proxy_focus: bool, sink: &mut Sink) 
                 } else {
                     (host_header_of(&u), origin_form(&u))
                 };
-                if tunnel_at == Some(i) {
+                if tunnelled(i) {
                     // the CONNECT names this hop's origin; nothing of the request precedes the tunnel
                     let want = format!("CONNECT {}:{} HTTP/1.1\r\n", u.host_str().unwrap(), u.port_or_known_default().unwrap());
                     if !h.written.starts_with(want.as_bytes()) {
@@ -285,6 +312,30 @@ pub fn generate_chains(seed: u64, n: usize, proxy_focus: bool, sink: &mut Sink) 
                     }
                     if dh != "proxy.test" || h.dial.port != 3128 {
                         return Err((format!("hop-peer-{}", tag), format!("tunnel hop {} dialled {}:{}", i, h.dial.host, h.dial.port)));
+                    }
+                    if !plain {
+                        continue;
+                    }
+                    // plain-tunnel mode: what was written inside the tunnel is this hop's request, in origin
+                    // form with the hop's own Host, and carries nothing of the proxy's
+                    let (_, inner) = h.split_connect().ok_or((format!("tunnel-head-{}", tag), "no CONNECT head".to_string()))?;
+                    let t = h.tunnel.as_ref().ok_or((format!("tunnel-not-established-{}", tag), format!("hop {} ({}): the proxy agreed but no TLS session was started", i, urls[i])))?;
+                    if t.name != u.host_str().unwrap() {
+                        return Err((format!("tls-name-{}", tag), format!("hop {} ({}): TLS session for {:?}", i, urls[i], t.name)));
+                    }
+                    let hop_tag = format!("{}-tunnelled-hop{}", tag, if i == 0 { "0" } else { ">=1" });
+                    check_request(&case, inner, &u, &host_header_of(&u), &origin_form(&u), &hop_tag, i == 0)?;
+                    let pr = spec::parse_request(inner).unwrap();
+                    if pr.headers.iter().any(|(n, _)| n == "proxy-authorization") || inner.windows(8).any(|w| w == b"cHU6cHc=") {
+                        return Err((format!("proxy-credentials-inside-tunnel-{}", tag), format!("hop {} ({}): the request inside the tunnel carries the proxy's credentials", i, urls[i])));
+                    }
+                    match &first_body {
+                        None => first_body = Some(pr.body.clone()),
+                        Some(b0) => {
+                            if &pr.body != b0 {
+                                return Err((format!("body-differs-{}-hop>=1", tag), format!("hop {} carries {} body octets, hop 0 carried {}", i, pr.body.len(), b0.len())));
+                            }
+                        }
                     }
                     continue;
                 }
